@@ -75,7 +75,7 @@ func cmdLX(args []string) {
 					got = append(got, lxTypes[t.Typ]+":"+v)
 				}
 			}
-		case <-time.After(5 * time.Second):
+		case <-time.After(20 * time.Second):
 			hung = 1
 		}
 		leak, frame := 0, ""
